@@ -7,7 +7,7 @@
    and every library call is one action  pre --op--> post.  The laws of the property are action properties: *)
 EXTENDS Integers, Sequences, FiniteSets, TLC
 
-Rearrangements == {"canonicalize", "standardize", "fix_resonance", "standardize_charges", "explicify", "implicify", "kekule", "thiele"}
+Rearrangements == {"canonicalize", "canonicalize-keep-kekule", "standardize", "fix_resonance", "standardize_charges", "explicify", "implicify", "kekule", "thiele"}
 ProtonMoves == {"neutralize"}
 Valid(st) == st.bad = 0 /\ st.h >= 0
 If(cond, name) == IF cond THEN {name} ELSE {}
@@ -17,7 +17,7 @@ If(cond, name) == IF cond THEN {name} ELSE {}
 HydrogenDroppingRules == {"[N;D1;z2;x1;+]=[N;D2;x1;z2]", "[C;D2;z2;x2;-]([N;D1,D2;z1;+])=[O;D1]", "[O;D1;z1;x1;-][N;D2;z1;+]", "[C;D1;x1;z2]=[O;D1] |^1:0|"}
 (* refusal contract: implicify_hydrogens (and canonicalize, which calls it) refuses molecules in which a hydrogen atom has two bonds
    (bridging hydrogens after B-H-B standardisation) with ValenceError and the advice to call remove_coordinate_bonds() *)
-Refusable(pre, step) == step.op \in {"implicify", "canonicalize", "tautomers"} /\ step.exc = "ValenceError" /\ (pre.bh > 0 \/ step.st.bh > 0)
+Refusable(pre, step) == step.op \in {"implicify", "canonicalize", "canonicalize-keep-kekule", "tautomers"} /\ step.exc = "ValenceError" /\ (pre.bh > 0 \/ step.st.bh > 0)
 (* one step *)
 StepLaws(pre, step) ==
   LET post == step.st  op == step.op IN
@@ -30,6 +30,7 @@ StepLaws(pre, step) ==
                IF { step.rules[k] : k \in 1..Len(step.rules) } \cap HydrogenDroppingRules # {} THEN "a-rule-written-for-hydrogen-free-spellings-drops-hydrogens"
                ELSE op \o ":hydrogen-count-changed")
        \cup If(Valid(pre) /\ Valid(post) /\ op \in ProtonMoves /\ post.q - pre.q # post.h - pre.h, op \o ":charge-and-hydrogens-not-moved-together")
+       \cup If(op = "canonicalize-keep-kekule" /\ post.kek # 1, "canonicalize-keep-kekule:aromatic-bonds-left")
        \cup If(op = "explicify" /\ Valid(pre) /\ post.ih # 0, "explicify:implicit-hydrogens-left")
        \cup If(op = "explicify" /\ Valid(pre) /\ step.ret # pre.ih, "explicify:returned-count")
        \cup If(op = "implicify" /\ step.ret # pre.xh - post.xh, "implicify:returned-count")
